@@ -356,7 +356,7 @@ def c16(run, vc):
         bad = lambda v: any(not e.get("ok", True) for e in v.get("entries", []))
         _multi_stage(run, vc, tables, [
             ("MC_Threshold", "MC_Threshold_%s.cfg" % run.tier, lambda v: v["act"] == "Combine" and bad(v), "share lists with one undecodable payload at every position (public-key and signature shares)"),
-            ("MC_SignCrypt", "MC_SignCrypt_%s.cfg" % run.tier, lambda v: v["act"] == "DecryptShares" and bad(v), "decryption-share lists with one undecodable payload"),
+            ("MC_SignCrypt", "MC_SignCrypt_%s.cfg" % run.tier, lambda v: v["act"] == "DecryptShares" and bad(v) and v["ct"]["n"] > 1, "decryption-share lists with one undecodable payload (messages longer than one byte: the chance opening of shorter ones is finding D11 under C11 / C12)"),
             ("MC_ElGamal", "MC_ElGamal_%s.cfg" % run.tier, lambda v: v["act"] == "EGShares" and bad(v), "ElGamal decryption-share lists with one undecodable payload"),
         ])
     return run.finish(rule="vectors = every (type, codec, mutation) of the Codec model: truncation at every field boundary (+-1) and at every length, extension, every point field replaced by {off-subgroup, valid+torsion, x without point, x >= p, cleared compression flag, infinity flag, identity}, every scalar field by {0, 1, r-1, r, r+5, 2^256-1, 0x80}, every tag byte, share ids {0, 255}, length prefixes {+1, huge, overlong}, JSON hex leaves {non-hex, odd, short, long, empty, upper}; decoded values are fed to every consumer; trace = random / bit-flipped / byte-replaced / truncated / extended / spliced inputs to every decoder, judged by an independent point classifier and validated by TLC per (type, codec, class, outcome)",
